@@ -22,6 +22,34 @@ def _bit(i):
     return i if i < 100 else 20 + (i - 100)
 
 
+class Lbl:
+    """a label that is hashable only by identity (an ordinary user object)"""
+    __slots__ = ("k",)
+
+    def __init__(self, k):
+        self.k = k
+
+    def __repr__(self):
+        return f"Lbl({self.k})"
+
+    def __reduce__(self):  # a pickle round trip finds the same object again (as for enum members) ...
+        return (lbl, (self.k,))
+
+    def __deepcopy__(self, memo):  # ... but deepcopy makes a clone, as for any ordinary object
+        c = Lbl(self.k)
+        memo[id(self)] = c
+        return c
+
+
+_LBL = {}
+
+
+def lbl(k):
+    if k not in _LBL:
+        _LBL[k] = Lbl(k)
+    return _LBL[k]
+
+
 class Gamma:
     """node_kind: ints | shift | str | npint | tuple ; edge_kind: int | npint | intfloat"""
 
@@ -76,6 +104,10 @@ class Gamma:
             return NUMSTR[k] if k < len(NUMSTR) else str(1000 + k)
         if nk == "mixed":  # numbers and strings together (only for operations that never compare labels)
             return int(k) if k % 2 == 0 else f"n{k}"
+        if nk == "bigint":  # a fresh int object at every occurrence (equal, not identical)
+            return int(str(1000 + int(k)))
+        if nk == "obj":  # hashable by identity only: the same object at every occurrence
+            return lbl(int(k))
         raise ValueError(nk)
 
     def inv_node(self, lab):
@@ -110,6 +142,12 @@ class Gamma:
             elif nk == "numstr":
                 if isinstance(lab, str):
                     return NUMSTR.index(lab) if lab in NUMSTR else int(lab) - 1000
+            elif nk == "bigint":
+                if isinstance(lab, (int, np.integer)) and not isinstance(lab, bool) and int(lab) >= 1000:
+                    return int(lab) - 1000
+            elif nk == "obj":
+                if isinstance(lab, Lbl):
+                    return int(lab.k)
             elif nk == "mixed":
                 if isinstance(lab, str) and lab[:1] == "n" and int(lab[1:]) % 2 == 1:
                     return int(lab[1:])
